@@ -413,7 +413,7 @@ def build(tier):
         extra_requires=[("called_for_a_for_loop", "outer_expr.expr_ is ForIn"), ("loop_index_below_iterated_value", "*vals(*old(env))[vals(*old(env)).len() - 2].0 matches Value_::Int(i) && i >= 0")],
         loops={1: dict(invariant=[("frame", "env.stack.0@.len() >= 1, others_same(*old(env), *env), vals(*env) == vals(*old(env)).drop_last().drop_last()"), ("index_in_range", "0 <= iteree_idx < isize::MAX")], decreases="symbols@.len() - __i1")}))
     u.add_fn(EV, "eval_assign", rules=BASE_RULES, contract=restore_contract("1", extra_ensures=[("blocks_and_pending_untouched", "blocks(*final(env)) == blocks(*old(env)) && pend(*final(env)) =~= pend(*old(env))", {"C06"})], props={"C07", "C02", "C06"},
-        hints=[dict(anchor="return Err", where="before", name="nothing_popped_yet", text="proof { assert(env.stack.0@ =~= old(env).stack.0@); }"),
+        hints=[dict(anchor="return Err", where="before", name="nothing_popped_yet", optional=True, text="proof { assert(env.stack.0@ =~= old(env).stack.0@); }"),
                dict(anchor="env.stack", where="before", name="popped_one_value", text="let ghost mid = *env;\nproof { assert(mid.stack.0@.drop_last() =~= old(env).stack.0@.drop_last()); }"),
                dict(anchor="if expr_value_is_used", where="before", name="only_bindings_changed", text="proof { assert(env.stack.0@.len() == mid.stack.0@.len()); assert(env.stack.0@.drop_last() =~= mid.stack.0@.drop_last()); }")]))
     DOT_RULES = BASE_RULES + [
